@@ -145,7 +145,8 @@ def family(tier, seed):
         if n == 32:
             bs[31] = rnd.randrange(0x73)
         E.append(ent(f"from_bytes[native,n={n}]", {"from_bytes": "Native"}, [("bytes", n)], [bs], S_from_bytes_native(n), n, alt=[[[0] * n], [[255] * n if n < 32 else [0] * 31 + [0x73]]]))
-    for n in ([1, 3] if tier == "quick" else [1, 3, 8, 32]):
+    # n >= 32: byte strings longer than one native element (any packing of >= 32 bytes into a field element wraps; seeded C18-b)
+    for n in ([1, 3, 32, 33] if tier == "quick" else [1, 3, 8, 31, 32, 33, 40, 64]):
         a = [rnd.randrange(256) for _ in range(n)]
         b = list(a)
         b[-1] ^= 1
@@ -165,4 +166,9 @@ def check(run):
     # zkir circuits choose their own k (MidnightCircuit::min_k)
     for en in ents:
         en["k"] = 0
-    cengine.run_family(run, "zkir", ents, timeout=60 if t == "quick" else 600, only=getattr(run, "only", None), workers=6)
+    # vecmap.EarlyZeroEnc: the is-zero lemma is applied before range inference, so the result bits of the
+    # byte-wise equality gadgets are statically known bits when the AND chain is encoded
+    # (is_equal[bytes,n=32]: 526 s -> 2 s; same facts, different order)
+    from vf.vecmap import EarlyZeroEnc, use_encoder
+    with use_encoder(EarlyZeroEnc):
+        cengine.run_family(run, "zkir", ents, timeout=60 if t == "quick" else 600, only=getattr(run, "only", None), workers=6)
